@@ -86,6 +86,10 @@ def titles_for(si, maxlen):
     names = [ns["1"]["*"], ns["14"]["*"].upper(), ns["10"].get("canonical", ns["10"]["*"]).lower()]
     if si.get("namespacealiases"):
         names.append(si["namespacealiases"][0]["*"])
+    # a namespace whose own "case" differs from the site-wide setting (the Gadget namespaces are case-sensitive)
+    odd = [v["*"] for v in ns.values() if v.get("case") and v.get("case") != si["general"].get("case")]
+    if odd:
+        names.append(odd[0].lower())
     alpha = ["a", "B", " ", "_", ":", "‎", "ä", "ß"] + names
     for n in range(1, maxlen + 1):
         for t in itertools.product(alpha, repeat=n):
@@ -133,7 +137,8 @@ def contract(h, si, title, defaultns):
         return f"full name {full!r} is not canonical"
     if partial != partial.strip() or partial.strip(MARKS) != partial:
         return f"partial {partial!r} has edge whitespace/marks"
-    if si["general"].get("case") == "first-letter" and partial and partial[:1].upper() != partial[:1] and len(partial[:1].upper()) == 1:
+    case = ns[str(nsnum)].get("case", si["general"].get("case"))      # the site says it per namespace
+    if case == "first-letter" and partial and partial[:1].upper() != partial[:1] and len(partial[:1].upper()) == 1:
         return f"partial {partial!r} not capitalised"
     # capitalising the first letter yields the SAME title with one letter changed: it never changes the length
     # (characters without a one-character upper case - sharp s - are canonical as they are on the wiki)
@@ -143,6 +148,8 @@ def contract(h, si, title, defaultns):
         body = body.replace("  ", " ")
     if len(partial) != len(body) or partial[1:] != body[1:]:
         return f"partial {partial!r} is not the title text {body!r} with its first letter capitalised"
+    if case == "case-sensitive" and partial != body:
+        return f"partial {partial!r}: namespace {nsnum} is case-sensitive on this site, the title text is {body!r}"
     for d2 in (0, 1, 10, 14, defaultns):
         if str(d2) in ns and h.splitname(full, d2) != r and not (nsnum == 0 and d2 != 0):
             # a main-namespace name carries no prefix, so it is re-read in the default namespace by
